@@ -17,7 +17,7 @@ theorem SInv.of_rel {st : St} (inv : SInv st) {t' : Tree} (hinv : TInv t') (hrel
     · rintro ⟨w', hl'⟩; obtain ⟨w, hl, _⟩ := hrel.live_back hl'; exact ⟨w, hl⟩
     · rintro ⟨w, hl⟩; obtain ⟨w', hl', _⟩ := hrel.live hl; exact ⟨w', hl'⟩
   refine ⟨hinv, by simp only; rw [hrel.1]; exact inv.wx_size, ?_, List.nodup_nil, by intro i hi; simp at hi, ?_,
-    ⟨inv.pens.rc, inv.pens.ex⟩, ?_, ?_, ?_, inv.rb_rc⟩
+    ⟨inv.pens.rc, inv.pens.ex, inv.pens.pos⟩, ?_, ?_, ?_, inv.rb_rc⟩
   · intro i w' hl'
     obtain ⟨w, hl, _⟩ := hrel.live_back hl'
     rw [hrc i w w' hl.1 hl'.1]
@@ -404,7 +404,7 @@ theorem newWin_ok {st : St} (inv : SInv st) {p : Nat} {pw : Win} (hp : LiveW st.
       by_cases h0q : (0 : Nat) = q
       · subst h0q; exact ⟨_, hqI⟩
       · exact ⟨x, by rw [G]; simp [h0q, h0]; exact hl.1, hl.2⟩
-  refine ⟨invI, ?_, ?_, List.nodup_nil, by intro i hi; simp at hi, ?_, ⟨?_, ?_⟩, ?_, ?_, ?_, inv.rb_rc⟩
+  refine ⟨invI, ?_, ?_, List.nodup_nil, by intro i hi; simp at hi, ?_, ⟨?_, ?_, inv.pens.pos⟩, ?_, ?_, ?_, inv.rb_rc⟩
   · simp only [Array.size_push, Array.size_append, Array.size_replicate, hsz, hwx]; omega
   · intro i x' hl'
     by_cases hi : i = st.tree.wins.size
@@ -473,7 +473,7 @@ theorem SInv.of_tree {st : St} (inv : SInv st) {t' : Tree} (hinv : TInv t') (hsz
       obtain ⟨w', hw', hf, _⟩ := h i w hl.1
       exact ⟨w', hw', by rw [hf]; exact hl.2⟩
   refine ⟨hinv, by simp only; rw [hsz]; exact inv.wx_size, ?_, List.nodup_nil, by intro i hi; simp at hi, ?_,
-    ⟨inv.pens.rc, inv.pens.ex⟩, ?_, ?_, ?_, inv.rb_rc⟩
+    ⟨inv.pens.rc, inv.pens.ex, inv.pens.pos⟩, ?_, ?_, ?_, inv.rb_rc⟩
   · intro i w' hl'
     obtain ⟨w, hw, hf, hr⟩ := back i w' hl'.1
     have hfl : w.freed = false := by rw [← hf]; exact hl'.2
